@@ -170,6 +170,8 @@ class World:
         self.escapes = []
         self.rerouted = {}         # real function name -> calls served by the world (library reached it outside the module globals)
         self.ticks = 0             # logical clock for modification times: one tick per modification
+        # how much simulated time passes between two modifications (per run): rewrites within one second / millisecond happen
+        self.tick_ns = (1, 1_000_000, 400_000_000, 1_000_000_000, 2_000_000_000)[(self.seed * 2654435761 >> 7) % 5]
         self.mtimes = {}           # abs path -> tick of the last modification
 
     # ------------------------------------------------------------------ cloning
@@ -187,6 +189,7 @@ class World:
         w.draws = list(self.draws)
         w.journal = list(self.journal)
         w.ticks = self.ticks
+        w.tick_ns = self.tick_ns
         w.mtimes = dict(self.mtimes)
         return w
 
@@ -380,10 +383,10 @@ class World:
         p = self.abspath(path)
         self.journal_add("stat", p)
         def result(mode, size):
-            t = 1_700_000_000 + self.mtimes.get(p, 0)          # one simulated second per modification
+            ns = 1_700_000_000 * 10 ** 9 + self.mtimes.get(p, 0) * self.tick_ns
+            t, ft = ns // 10 ** 9, ns / 1e9
             ino = 1000 + sum(p.encode()) % 100000
-            return _real_os.stat_result((mode, ino, 1, 1, 0, 0, size, t, t, t, float(t), float(t), float(t),
-                                         t * 10 ** 9, t * 10 ** 9, t * 10 ** 9))
+            return _real_os.stat_result((mode, ino, 1, 1, 0, 0, size, t, t, t, ft, ft, ft, ns, ns, ns))
         if p in self.files:
             return result(_stat.S_IFREG | (0o000 if p in self.unreadable else 0o600), len(self.files[p]))
         if p in self.dirs:
